@@ -7,7 +7,7 @@
 #   the repository's test-suite when it was recorded.
 # usage: tool/refactor_test.sh [patch ...]     (default: all)
 cd /verif
-PROPS="C01 C02 C03 C04 C05 C06 C07 C08 C09 C10 C11 C12 C13 C14 C15 C16 C17 C18 C19"
+PROPS=${PROPS:-"C01 C02 C03 C04 C05 C06 C07 C08 C09 C10 C11 C12 C13 C14 C15 C16 C17 C18 C19 C20"}
 mk() { D=$(mktemp -d /tmp/pvrefactor.XXXX); mkdir -p $D/subprojects/hinnant-date; cp -r /repo/include /repo/src $D/; cp -r /repo/subprojects/hinnant-date/include $D/subprojects/hinnant-date/; echo $D; }
 run_variant() { # $1 dir $2 label $3 tolerate-exit-2
   local bad=0
